@@ -53,6 +53,35 @@ type rec struct {
 	notes       []string
 	dialing     bool // DialAsync has not returned yet: events are held back until its answer is logged
 	held        []string
+	udpPeer     *net.UDPConn  // UDP client origins: the peer's (unconnected) socket
+	udpFrom     *net.UDPAddr  // ... and the connection's address as the peer saw it
+	dataCh      chan struct{} // one token per OnData call
+	warm        bool          // datagrams / bytes were exchanged in both directions before the termination
+	isClosedBad []string      // disagreements between IsClosed() and the close notification
+}
+
+func isUDPClient(origin string) bool { return origin == "udp-added" || origin == "udp-dialed" }
+
+// peerSend sends bytes from the peer's end to the connection.
+func (rc *rec) peerSend(b []byte) {
+	if rc.udpPeer != nil {
+		if rc.udpFrom != nil {
+			rc.udpPeer.WriteToUDP(b, rc.udpFrom)
+		}
+		return
+	}
+	if rc.peer != nil {
+		rc.peer.Write(b)
+	}
+}
+
+func (rc *rec) waitData(d time.Duration) bool {
+	select {
+	case <-rc.dataCh:
+		return true
+	case <-time.After(d):
+		return false
+	}
 }
 
 // put appends an event; rc.mu must be held.
@@ -125,6 +154,39 @@ type realEnv struct {
 	nextOpen func(c *nbio.Conn, rc *rec)
 	openCh   chan *rec
 	stopped  bool
+	warm     bool     // establish lets the two ends exchange data before the scenario's termination
+	glog     []string // UDP table histories: open / data / close events of all sessions, in real-time order (under mu)
+}
+
+func (env *realEnv) glogAdd(e string) {
+	env.mu.Lock()
+	env.glog = append(env.glog, e)
+	env.mu.Unlock()
+}
+
+func (env *realEnv) glogLen() int {
+	env.mu.Lock()
+	defer env.mu.Unlock()
+	return len(env.glog)
+}
+
+// glogWait waits until an event with the given suffix has been logged at or after position from.
+func (env *realEnv) glogWait(from int, suffix string, d time.Duration) bool {
+	deadline := time.Now().Add(d)
+	for {
+		env.mu.Lock()
+		for _, e := range env.glog[from:] {
+			if strings.Contains(e, suffix) {
+				env.mu.Unlock()
+				return true
+			}
+		}
+		env.mu.Unlock()
+		if time.Now().After(deadline) {
+			return false
+		}
+		time.Sleep(200 * time.Microsecond)
+	}
 }
 
 func socketInode(fd int) string {
@@ -160,7 +222,8 @@ func fdCount() int {
 }
 
 func (env *realEnv) newRec(origin string) *rec {
-	rc := &rec{origin: origin, mode: env.mode, closedCh: make(chan struct{}), dialCh: make(chan struct{}), openAt: -1, allowed: map[string]bool{}}
+	rc := &rec{origin: origin, mode: env.mode, closedCh: make(chan struct{}), dialCh: make(chan struct{}), openAt: -1, allowed: map[string]bool{},
+		dataCh: make(chan struct{}, 1024)}
 	env.mu.Lock()
 	rc.id = len(env.all)
 	env.all = append(env.all, rc)
@@ -190,7 +253,12 @@ func (env *realEnv) bind(c *nbio.Conn, rc *rec) {
 
 func (env *realEnv) closeEvent(rc *rec, c *nbio.Conn, err error) {
 	id := errID(err)
+	cl, ce := c.IsClosed()
+	env.glogAdd(fmt.Sprintf("%d.close:%s", rc.id, id))
 	rc.mu.Lock()
+	if !cl || errID(ce) != id {
+		rc.isClosedBad = append(rc.isClosedBad, fmt.Sprintf("inside the close handler: notified %s, IsClosed() = (%v, %s)", errName(id), cl, errName(errID(ce))))
+	}
 	rc.put("close:" + id)
 	rc.closes++
 	rc.closeErr = append(rc.closeErr, id)
@@ -223,6 +291,8 @@ func startEnv(rep *hx.Report, seed int64, mode string, tableSize int) *realEnv {
 
 const udpReadTimeout = 400 * time.Millisecond
 
+var udpIdle = udpReadTimeout // Config.UDPReadTimeout of the next UDP engine (0: sessions have no idle timeout)
+
 func startEnvNet(rep *hx.Report, seed int64, mode string, tableSize int, network string) *realEnv {
 	env := &realEnv{rep: rep, seed: seed, mode: mode, recs: map[*nbio.Conn]*rec{}, extCh: make(chan net.Conn, 64), openCh: make(chan *rec, 64)}
 	em, os1, async := epollCfg(mode)
@@ -231,7 +301,7 @@ func startEnvNet(rep *hx.Report, seed int64, mode string, tableSize int, network
 	if network == "udp" {
 		env.mode = mode + "/udp"
 		conf.NPoller = 1
-		conf.UDPReadTimeout = udpReadTimeout
+		conf.UDPReadTimeout = udpIdle
 	}
 	g := nbio.NewEngine(conf)
 	g.OnOpen(func(c *nbio.Conn) {
@@ -246,6 +316,7 @@ func startEnvNet(rep *hx.Report, seed int64, mode string, tableSize int, network
 		rc.evs = append(rc.evs, "open")
 		rc.opens++
 		rc.mu.Unlock()
+		env.glogAdd(fmt.Sprintf("%d.open", rc.id))
 		env.bind(c, rc)
 		env.mu.Lock()
 		plan := env.nextOpen
@@ -272,6 +343,11 @@ func startEnvNet(rep *hx.Report, seed int64, mode string, tableSize int, network
 		rc := env.recs[c]
 		env.mu.Unlock()
 		if rc != nil {
+			env.glogAdd(fmt.Sprintf("%d.data", rc.id))
+			select {
+			case rc.dataCh <- struct{}{}:
+			default:
+			}
 			rc.mu.Lock()
 			h := rc.onData
 			rc.mu.Unlock()
@@ -355,8 +431,110 @@ func (env *realEnv) takeOpen() *rec {
 }
 
 // ---- establishing a connection of each origin; returns its record and the peer's end ----
+
+// establish sets the connection up and, when env.warm is set, lets both ends exchange data first: the poller has then
+// delivered data and read the descriptor to EAGAIN, and the connection has written, before the termination is applied.
 func (env *realEnv) establish(origin string, plan func(c *nbio.Conn, rc *rec)) *rec {
+	rc := env.establishRaw(origin, plan)
+	if rc == nil || rc.conn == nil {
+		return rc
+	}
+	if isUDPClient(origin) && rc.udpPeer != nil && plan == nil {
+		// the peer learns the connection's address from its first datagram
+		rc.op("w", func() error { _, err := rc.conn.Write([]byte("hello")); return err })
+		rc.udpPeer.SetReadDeadline(time.Now().Add(2 * time.Second))
+		buf := make([]byte, 256)
+		if _, from, err := rc.udpPeer.ReadFromUDP(buf); err == nil {
+			rc.udpFrom = from
+		}
+		rc.udpPeer.SetReadDeadline(time.Time{})
+	}
+	if env.warm && plan == nil {
+		env.warmUp(rc)
+	}
+	return rc
+}
+
+func (env *realEnv) warmUp(rc *rec) {
+	for len(rc.dataCh) > 0 {
+		<-rc.dataCh
+	}
+	rc.peerSend([]byte("warm"))
+	if !rc.waitData(2 * time.Second) {
+		rc.notes = append(rc.notes, "warm-up: no data callback")
+		return
+	}
+	if rc.origin != "udp-session" {
+		rc.op("w", func() error { _, err := rc.conn.Write([]byte("pong")); return err })
+		if rc.peer != nil { // the peer takes the answer: unread data would turn its later close into a reset
+			rc.peer.SetReadDeadline(time.Now().Add(2 * time.Second))
+			io.ReadFull(rc.peer, make([]byte, 4))
+			rc.peer.SetReadDeadline(time.Time{})
+		}
+	}
+	time.Sleep(3 * time.Millisecond) // the poller finishes its read pass (EAGAIN) behind the data callback
+	rc.warm = true
+	env.rep.Stat("real.warm." + rc.origin)
+}
+
+func (env *realEnv) newUDPPeer() *net.UDPConn {
+	p, err := net.ListenUDP("udp", &net.UDPAddr{IP: net.IPv4(127, 0, 0, 1)})
+	if err != nil {
+		return nil
+	}
+	return p
+}
+
+func (env *realEnv) establishRaw(origin string, plan func(c *nbio.Conn, rc *rec)) *rec {
 	switch origin {
+	case "udp-added": // net.DialUDP + AddConn: ConnTypeUDPClientFromDial
+		p := env.newUDPPeer()
+		if p == nil {
+			return nil
+		}
+		uc, err := net.DialUDP("udp", nil, p.LocalAddr().(*net.UDPAddr))
+		if err != nil {
+			p.Close()
+			return nil
+		}
+		env.mu.Lock()
+		env.nextOpen = plan
+		env.mu.Unlock()
+		_, aerr := env.g.AddConn(uc)
+		var rc *rec
+		select {
+		case rc = <-env.openCh:
+		default:
+		}
+		if rc == nil {
+			p.Close()
+			return nil
+		}
+		rc.origin, rc.udpPeer, rc.peer = "udp-added", p, p
+		if aerr != nil {
+			rc.notes = append(rc.notes, "AddConn returned "+aerr.Error())
+		}
+		return rc
+	case "udp-dialed": // DialAsync("udp"): connect(2) returns at once, the callback comes through the engine's Async queue
+		p := env.newUDPPeer()
+		if p == nil {
+			return nil
+		}
+		rc := env.newRec("udp-dialed")
+		rc.dialOutcome, rc.udpPeer, rc.peer = "connected", p, p
+		if !env.dialNet(rc, "udp", p.LocalAddr().String(), 0) {
+			p.Close()
+			return nil
+		}
+		if !waitCh(rc.dialCh, waitClose) {
+			env.oracle(rc, "dial-callback-missing-connected", "no dial callback within "+waitClose.String()+" for DialAsync(\"udp\")")
+			p.Close()
+			return nil
+		}
+		if plan != nil && rc.conn != nil {
+			plan(rc.conn, rc)
+		}
+		return rc
 	case "udp-session":
 		env.mu.Lock()
 		env.nextOpen = plan
@@ -442,6 +620,10 @@ func (env *realEnv) establish(origin string, plan func(c *nbio.Conn, rc *rec)) *
 
 // dial calls DialAsync / DialAsyncTimeout; the acceptance event is logged before any callback can be.
 func (env *realEnv) dial(rc *rec, addr string, timeout time.Duration) bool {
+	return env.dialNet(rc, "tcp", addr, timeout)
+}
+
+func (env *realEnv) dialNet(rc *rec, network, addr string, timeout time.Duration) bool {
 	cb := func(c *nbio.Conn, err error) {
 		id := errID(err)
 		if err == nil {
@@ -477,9 +659,9 @@ func (env *realEnv) dial(rc *rec, addr string, timeout time.Duration) bool {
 	rc.mu.Unlock()
 	var err error
 	if timeout > 0 {
-		err = env.g.DialAsyncTimeout("tcp", addr, timeout, cb)
+		err = env.g.DialAsyncTimeout(network, addr, timeout, cb)
 	} else {
-		err = env.g.DialAsync("tcp", addr, cb)
+		err = env.g.DialAsync(network, addr, cb)
 	}
 	rc.mu.Lock()
 	rc.dialing = false
@@ -503,7 +685,11 @@ type scenario struct {
 }
 
 var all3 = []string{"accepted", "added", "dialed"}
-var noDial = []string{"accepted", "added"}
+var udpClients = []string{"udp-added", "udp-dialed"}
+var all5 = []string{"accepted", "added", "dialed", "udp-added", "udp-dialed"}
+var noDial = []string{"accepted", "added", "udp-added"}
+
+func isDialed(origin string) bool { return origin == "dialed" || origin == "udp-dialed" }
 
 func drainPeer(p net.Conn) {
 	go func() {
@@ -591,7 +777,7 @@ var scenarios = []scenario{
 		rc.peer.Close()
 		env.finish(rc)
 	}},
-	{"concurrent-close", all3, func(env *realEnv, origin string, rnd *rand.Rand) {
+	{"concurrent-close", all5, func(env *realEnv, origin string, rnd *rand.Rand) {
 		rc := env.establish(origin, nil)
 		if rc == nil {
 			return
@@ -602,7 +788,7 @@ var scenarios = []scenario{
 		env.raceClose(rc, rnd, func(i int) error { return nil })
 		env.finish(rc)
 	}},
-	{"concurrent-close-with-error", all3, func(env *realEnv, origin string, rnd *rand.Rand) {
+	{"concurrent-close-with-error", all5, func(env *realEnv, origin string, rnd *rand.Rand) {
 		rc := env.establish(origin, nil)
 		if rc == nil {
 			return
@@ -613,7 +799,7 @@ var scenarios = []scenario{
 		env.raceClose(rc, rnd, func(i int) error { return userErrs[i%len(userErrs)] })
 		env.finish(rc)
 	}},
-	{"read-deadline", all3, func(env *realEnv, origin string, rnd *rand.Rand) {
+	{"read-deadline", all5, func(env *realEnv, origin string, rnd *rand.Rand) {
 		rc := env.establish(origin, nil)
 		if rc == nil {
 			return
@@ -623,13 +809,19 @@ var scenarios = []scenario{
 		rc.conn.SetReadDeadline(time.Now().Add(time.Duration(10+rnd.Intn(30)) * time.Millisecond))
 		env.finish(rc)
 	}},
-	{"write-deadline", all3, func(env *realEnv, origin string, rnd *rand.Rand) {
+	{"write-deadline", all5, func(env *realEnv, origin string, rnd *rand.Rand) {
 		rc := env.establish(origin, nil)
 		if rc == nil {
 			return
 		}
 		rc.scenario = "write-deadline"
 		allow(rc, "write-deadline", nbio.ErrWriteTimeout)
+		if isUDPClient(origin) {
+			// a datagram socket never keeps a backlog: the timer stays armed as long as nothing is written
+			rc.conn.SetWriteDeadline(time.Now().Add(time.Duration(10+rnd.Intn(30)) * time.Millisecond))
+			env.finish(rc)
+			return
+		}
 		rc.conn.SetWriteBuffer(4096)
 		if tc, ok := rc.peer.(*net.TCPConn); ok {
 			tc.SetReadBuffer(4096)
@@ -639,7 +831,7 @@ var scenarios = []scenario{
 		rc.op("w", func() error { _, err := rc.conn.Write(make([]byte, realMaxWrite-1)); return err })
 		env.finish(rc)
 	}},
-	{"deadline-both", all3, func(env *realEnv, origin string, rnd *rand.Rand) {
+	{"deadline-both", all5, func(env *realEnv, origin string, rnd *rand.Rand) {
 		rc := env.establish(origin, nil)
 		if rc == nil {
 			return
@@ -649,7 +841,7 @@ var scenarios = []scenario{
 		rc.conn.SetDeadline(time.Now().Add(time.Duration(10+rnd.Intn(20)) * time.Millisecond))
 		env.finish(rc)
 	}},
-	{"overflow-write", all3, func(env *realEnv, origin string, rnd *rand.Rand) {
+	{"overflow-write", all5, func(env *realEnv, origin string, rnd *rand.Rand) {
 		rc := env.establish(origin, nil)
 		if rc == nil {
 			return
@@ -662,7 +854,7 @@ var scenarios = []scenario{
 		}
 		env.finish(rc)
 	}},
-	{"overflow-writev", all3, func(env *realEnv, origin string, rnd *rand.Rand) {
+	{"overflow-writev", all5, func(env *realEnv, origin string, rnd *rand.Rand) {
 		rc := env.establish(origin, nil)
 		if rc == nil {
 			return
@@ -698,6 +890,25 @@ var scenarios = []scenario{
 		}
 		env.finish(rc)
 	}},
+	{"udp-refused", udpClients, func(env *realEnv, origin string, rnd *rand.Rand) {
+		rc := env.establish(origin, nil)
+		if rc == nil {
+			return
+		}
+		rc.scenario = "udp-refused"
+		// the peer's port is closed: the ICMP answer to the next datagram becomes the socket's pending error; the poller's
+		// error event (EOF) or a failing write (ECONNREFUSED) closes the connection, whichever comes first
+		allow(rc, "udp-refused", syscall.ECONNREFUSED, io.EOF)
+		rc.udpPeer.Close()
+		for i := 0; i < 100; i++ {
+			res := rc.op("w", func() error { _, err := rc.conn.Write([]byte("to a closed port")); return err })
+			if res != "done" {
+				break
+			}
+			time.Sleep(2 * time.Millisecond)
+		}
+		env.finish(rc)
+	}},
 	{"close-in-onopen", noDial, func(env *realEnv, origin string, rnd *rand.Rand) {
 		rc := env.establish(origin, func(c *nbio.Conn, rc *rec) {
 			rc.scenario = "close-in-onopen"
@@ -710,7 +921,7 @@ var scenarios = []scenario{
 		env.finish(rc)
 		env.opsAfterClose(rc)
 	}},
-	{"close-in-ondata", all3, func(env *realEnv, origin string, rnd *rand.Rand) {
+	{"close-in-ondata", all5, func(env *realEnv, origin string, rnd *rand.Rand) {
 		rc := env.establish(origin, nil)
 		if rc == nil {
 			return
@@ -720,11 +931,11 @@ var scenarios = []scenario{
 		rc.mu.Lock()
 		rc.onData = func(c *nbio.Conn, rc *rec) { rc.closeCall(nil) }
 		rc.mu.Unlock()
-		rc.peer.Write([]byte("x"))
+		rc.peerSend([]byte("x"))
 		env.finish(rc)
 		env.opsAfterClose(rc)
 	}},
-	{"close-in-onclose", all3, func(env *realEnv, origin string, rnd *rand.Rand) {
+	{"close-in-onclose", all5, func(env *realEnv, origin string, rnd *rand.Rand) {
 		rc := env.establish(origin, nil)
 		if rc == nil {
 			return
@@ -755,7 +966,7 @@ func (env *realEnv) raceClose(rc *rec, rnd *rand.Rand, cause func(i int) error) 
 	for i := 0; i < nw; i++ {
 		wg.Add(1)
 		kind := rnd.Intn(5)
-		if rc.origin == "udp-session" {
+		if rc.origin == "udp-session" || isUDPClient(rc.origin) {
 			kind = []int{0, 3, 4}[rnd.Intn(3)] // no vectored writes / sendfile on datagram sockets
 		}
 		go func() {
@@ -852,7 +1063,7 @@ func (env *realEnv) check(rc *rec) {
 	if rc.closes > 1 {
 		env.oracle(rc, "close-notified-twice", fmt.Sprintf("%d close notifications (%v)", rc.closes, rc.closeErr))
 	}
-	if rc.origin != "dialed" {
+	if !isDialed(rc.origin) {
 		if rc.opens != 1 {
 			env.oracle(rc, "open-count", fmt.Sprintf("%d open notifications", rc.opens))
 		}
@@ -897,6 +1108,15 @@ func (env *realEnv) check(rc *rec) {
 					env.oracle(rc, "wrong-close-error-"+rc.expect, fmt.Sprintf("an operation failed with %s on the open connection but %s was notified", errName(id), errName(rc.closeErr[0])))
 				}
 			}
+		}
+	}
+	// IsClosed agrees with the notification: inside the close handler and when everything has settled
+	for _, b := range rc.isClosedBad {
+		env.oracle(rc, "isclosed-differs-from-notified-"+rc.expect, b)
+	}
+	if rc.closes >= 1 && rc.conn != nil {
+		if cl, ce := rc.conn.IsClosed(); !cl || errID(ce) != rc.closeErr[0] {
+			env.oracle(rc, "isclosed-differs-from-notified-"+rc.expect, fmt.Sprintf("notified %s, IsClosed() = (%v, %s) after everything settled", errName(rc.closeErr[0]), cl, errName(errID(ce))))
 		}
 	}
 	// descriptor gone
@@ -947,7 +1167,7 @@ func (env *realEnv) stopEnv(extraBeforeStop func()) {
 		}
 	}
 	var open []*rec
-	origins := all3
+	origins := all5
 	if strings.HasSuffix(env.mode, "/udp") {
 		origins = []string{"udp-session", "udp-session"}
 	}
@@ -1186,11 +1406,133 @@ var udpScenarios = map[string]bool{"concurrent-close": true, "concurrent-close-w
 
 var fdBaselineInvalid bool // an engine had to be abandoned (its poller is blocked): the descriptor count is meaningless
 
+// udpTableHistory: a sequential history of datagrams from a few remotes and closes of their sessions against one UDP
+// listener; the open / data / close events of all sessions and the final address -> session table are compared with the
+// extracted model of the listener's session table (UdpSessions.v), and the oracle checks "same address -> same session
+// until it is closed, then a new one" directly.
+func udpTableHistory(rep *hx.Report, seed int64, round int, mode string, rnd *rand.Rand) {
+	udpIdle = 0
+	env := startEnvNet(rep, seed, mode, 1<<16, "udp")
+	udpIdle = udpReadTimeout
+	const npeers = 3
+	var peers []net.Conn
+	for i := 0; i < npeers; i++ {
+		p, err := net.Dial("udp", env.addr)
+		if err != nil {
+			return
+		}
+		defer p.Close()
+		peers = append(peers, p)
+	}
+	live := map[int]*rec{} // peer -> its session that has not been closed by the harness
+	var acts, steps []string
+	var want []string // oracle: expected events
+	nsteps := 8 + rnd.Intn(10)
+	ok := true
+	for i := 0; i < nsteps && ok; i++ {
+		p := rnd.Intn(npeers)
+		from := env.glogLen()
+		if rc := live[p]; rc != nil && rnd.Intn(3) == 0 {
+			cause := userErrs[rnd.Intn(len(userErrs))]
+			steps = append(steps, fmt.Sprintf("close(session of peer %d, %s)", p, errName(errID(cause))))
+			acts = append(acts, fmt.Sprintf("s %d cl 1 %s 1 ; s %d td 1 ; s %d job", rc.id, errID(cause), rc.id, rc.id))
+			rc.scenario = "table-history"
+			allow(rc, "close-with-error", cause)
+			rc.closeCall(cause)
+			ok = env.glogWait(from, fmt.Sprintf("%d.close:", rc.id), 3*time.Second)
+			want = append(want, fmt.Sprintf("%d.close:%s", rc.id, errID(cause)))
+			delete(live, p)
+			continue
+		}
+		steps = append(steps, fmt.Sprintf("datagram(peer %d)", p))
+		acts = append(acts, fmt.Sprintf("d %d", p))
+		peers[p].Write([]byte("datagram"))
+		ok = env.glogWait(from, ".data", 3*time.Second)
+		if rc := live[p]; rc != nil {
+			want = append(want, fmt.Sprintf("%d.data", rc.id))
+		} else {
+			select {
+			case rc := <-env.openCh:
+				rc.scenario = "table-history"
+				allow(rc, "engine-stop", nil)
+				rc.peer = nil
+				live[p] = rc
+				want = append(want, fmt.Sprintf("%d.open", rc.id), fmt.Sprintf("%d.data", rc.id))
+			case <-time.After(3 * time.Second):
+				ok = false
+			}
+		}
+	}
+	time.Sleep(5 * time.Millisecond)
+	env.mu.Lock()
+	got := append([]string{}, env.glog...)
+	env.mu.Unlock()
+	replay := env.replay(nil, map[string]interface{}{"scenario": "udp-table-history", "steps": steps, "observed": got})
+	rep.Case(fmt.Sprintf("%s/udp-table/%v", env.mode, steps), true)
+	rep.Stat("real.udp-table-history")
+	if !ok {
+		addOracle(rep, "udp-session-event-missing", "["+env.mode+"] a datagram / close produced no data / close event within 3 s: "+strings.Join(got, " "), replay)
+	} else if strings.Join(got, " ") != strings.Join(want, " ") {
+		addOracle(rep, "udp-session-table", "["+env.mode+"] same address -> same session until it is closed, then a new one: expected events "+
+			strings.Join(want, " ")+" but observed "+strings.Join(got, " "), replay)
+	}
+	if model != nil && ok {
+		ans := model.Ask("urun %s", strings.Join(acts, " ; "))
+		var mev []string
+		body, tail := ans, ""
+		if i := strings.Index(ans, "|"); i >= 0 {
+			body, tail = ans[:i], strings.TrimSpace(ans[i+1:])
+		}
+		for _, part := range strings.Split(body, ";") {
+			for _, e := range strings.Fields(part) {
+				if !strings.HasSuffix(e, ".cret") {
+					mev = append(mev, e)
+				}
+			}
+		}
+		// the table: address -> session
+		var tb []string
+		for p := 0; p < npeers; p++ {
+			if rc := live[p]; rc != nil {
+				tb = append(tb, fmt.Sprintf("%d:%d", p, rc.id))
+			}
+		}
+		mt := strings.TrimPrefix(strings.Fields(tail + " tbl=")[0], "tbl=")
+		mtab := strings.Split(mt, ",")
+		if mt == "" {
+			mtab = nil
+		}
+		sortStrings(mtab)
+		sortStrings(tb)
+		if strings.Join(mev, " ") != strings.Join(got, " ") || strings.Join(mtab, ",") != strings.Join(tb, ",") {
+			rep.Add(hx.Finding{Kind: "mismatch", Property: prop, Signature: "lifecycle-udp-table",
+				What: "[" + env.mode + "] UDP listener history replayed through the model: events / table differ\n model:          " + strings.Join(mev, " ") + " | " + strings.Join(mtab, ",") +
+					"\n implementation: " + strings.Join(got, " ") + " | " + strings.Join(tb, ","),
+				Replay: replay})
+		}
+		rep.Stat("real.udp-table-model-checked")
+	}
+	env.stopEnv(nil)
+}
+
+func sortStrings(a []string) {
+	for i := 1; i < len(a); i++ {
+		for j := i; j > 0 && a[j] < a[j-1]; j-- {
+			a[j], a[j-1] = a[j-1], a[j]
+		}
+	}
+}
+
 func udpRound(rep *hx.Report, seed int64, round int, mode string) {
 	rnd := rand.New(rand.NewSource(seed*104729 + int64(round)))
+	for i := 0; i < 3; i++ {
+		udpTableHistory(rep, seed, round, mode, rnd)
+	}
+	env0 := rnd.Intn(3) > 0
 	env := startEnvNet(rep, seed, mode, 1<<16, "udp")
 	for _, sc := range scenarios {
 		if udpScenarios[sc.name] {
+			env.warm = env0 || rnd.Intn(2) == 0
 			sc.run(env, "udp-session", rnd)
 		}
 	}
@@ -1376,6 +1718,7 @@ func runReal(rep *hx.Report, seed int64, rounds int) {
 			for _, si := range order {
 				sc := scenarios[si]
 				for _, o := range sc.origins {
+					env.warm = rnd.Intn(3) > 0
 					sc.run(env, o, rnd)
 				}
 			}
